@@ -6,14 +6,16 @@
    props/C16.py realises every relative ADDRESS order of {ephemeron, its value, dependent ephemeron, its key}
    -- the order in which sexp_mark_weak_extras meets them.  The achieved addresses are printed (line "A") and
    checked by the plugin, which also replays the heap dumps (CHIBI_VERIF_TRACE / CHIBI_VERIF_DUMP hooks of gc.c).
-   input : one history per line:  <nslots> <op>;<op>;...   ops: K,i  H,i  C,i,a,b  E,i,k,v  D,i  G
+   input : one history per line:  <nslots> <op>;<op>;...   ops: K,i  H,i  C,i,a,b  E,i,k,v  D,i  G  B,i,n  O,i
+           (B: a vector of n slots, an ordinary object for the model; O: a stream port on /dev/null, as in c16_hist.scm)
    output: H <n> <observation>/<observation>...      one observation per G, same text as harness/c16_hist.scm:
-               e<id>=<broken>,<key fingerprint>,<value fingerprint>;...|fds=0|gc=<number of the G's first collection>
+               e<id>=<broken>,<key fingerprint>,<value fingerprint>;...|fds=<open descriptors - baseline>|gc=<number of the G's first collection>
            A <n> <id>:<heap index>:<offset>,...       address of every object the history allocated
            DONE */
 #include <stdio.h>
 #include <stdlib.h>
 #include <string.h>
+#include <dirent.h>
 #include <chibi/eval.h>
 
 #define MAXSLOTS 256
@@ -24,6 +26,15 @@ static sexp ctx;
 static sexp R, OBS;                 /* roots, preserved */
 static long obs_id[MAXOBS]; static int nobs;
 static int addr_heap[MAXIDS]; static unsigned long addr_off[MAXIDS]; static long nids;
+
+static long fd_count (void) {
+  long n = 0; DIR *d = opendir("/proc/self/fd"); struct dirent *e;
+  if (!d) return -1;
+  while ((e = readdir(d))) n++;
+  closedir(d);
+  return n;
+}
+static long fd_base;
 
 static int locate (sexp x, unsigned long *off) {
   sexp_heap h; int hi = 0;
@@ -57,6 +68,7 @@ static void fp (sexp x, int d, FILE *out) {
     fputs("(", out); fp(sexp_car(x), d - 1, out); fputs(" . ", out); fp(sexp_cdr(x), d - 1, out); fputs(")", out);
     return;
   }
+  if (sexp_portp(x)) { fputs("p", out); return; }
   if (sexp_vectorp(x) && sexp_vector_length(x) >= 1 && sexp_fixnump(sexp_vector_ref(x, SEXP_ZERO))) {
     fprintf(out, "k%lx", (long)sexp_unbox_fixnum(sexp_vector_ref(x, SEXP_ZERO))); return;
   }
@@ -71,7 +83,7 @@ static void observe (FILE *out, unsigned long gcno) {
     fprintf(out, "e%lx=%d,", obs_id[i], sexp_brokenp(e) ? 1 : 0);
     fp(sexp_ephemeron_key(e), 6, out); fputs(",", out); fp(sexp_ephemeron_value(e), 6, out);
   }
-  fprintf(out, "|fds=0|gc=%lu", gcno);
+  fprintf(out, "|fds=%ld|gc=%lu", fd_count() - fd_base, gcno);
 }
 
 static sexp slot (long i) { return (i >= 0 && i < MAXSLOTS) ? sexp_vector_ref(R, sexp_make_fixnum(i)) : SEXP_FALSE; }
@@ -86,6 +98,7 @@ static int run_history (char *ops, FILE *out) {
   for (i = 0; i < MAXOBS; i++) sexp_vector_set(OBS, sexp_make_fixnum(i), SEXP_FALSE);
   nobs = 0; nids = 0;
   sexp_gc(ctx, NULL);           /* everything of the previous history is gone: one coalesced free chunk behind the roots */
+  fd_base = fd_count();
   for (tok = strtok_r(ops, ";", &save); tok; tok = strtok_r(NULL, ";", &save)) {
     char *p = tok + 1;
     kind = tok[0]; na = 0;
@@ -107,6 +120,18 @@ static int run_history (char *ops, FILE *out) {
       nids++; record(nids, x); set_slot(a[0], x);
       obs_id[nobs] = nids; sexp_vector_set(OBS, sexp_make_fixnum(nobs), x); nobs++;
       break;
+    case 'B':                     /* a big block of a[1] slots (dropped later: a large free chunk in the middle of the heap) */
+      x = sexp_make_vector(ctx, sexp_make_fixnum(na > 1 && a[1] > 0 ? a[1] : 1), SEXP_FALSE);
+      if (sexp_exceptionp(x)) return 0;
+      nids++; sexp_vector_set(x, SEXP_ZERO, sexp_make_fixnum(nids)); record(nids, x); set_slot(a[0], x);
+      break;
+    case 'O': {                   /* (open-input-file "/dev/null"): a stream port owning a descriptor */
+      FILE *f = fopen("/dev/null", "r");
+      if (!f) return 0;
+      x = sexp_make_input_port(ctx, f, SEXP_FALSE);
+      if (sexp_exceptionp(x)) return 0;
+      nids++; record(nids, x); set_slot(a[0], x);
+      break; }
     case 'D': set_slot(a[0], SEXP_FALSE); break;
     case 'G':
       gcno = (unsigned long)sexp_context_gc_count(ctx);     /* the number of the first of the two collections */
